@@ -14,7 +14,8 @@ func init() {
 			"(2) E12: LabelSetsMatch is summarised and compared on all finite models with empty(sets) || EXISTS set. FORALL matcher. !(set.Has(name) && !matcher.Matches(set.Get(name))): a matcher can only reject a label set that carries the matcher's name. " +
 			"(3) matchersMatchAddress rejects only through matchers named __address__ (FORALL m. !(isAddress(m) && !matches(m))) and storeMatchDebugMetadata is EXISTS over the matcher sets. " +
 			"(4) matchesExternalLabels and bucketBlockSet.labelMatchers reject exactly when the store has a non-empty value for the matcher's name and the matcher does not match it (E9 on the reject path condition), and forward the matcher on the agnostic path. " +
-			"(5) bucketBlock.overlapsClosedInterval equals MinTime <= maxt && mint < MaxTime.",
+			"(5) bucketBlock.overlapsClosedInterval equals MinTime <= maxt && mint < MaxTime. " +
+			"(6) The range a store advertises covers what it holds: BucketStore.TimeRange and ProxyStore.TimeRange are min/max folds over every block / client (no skipped element, no first/last shortcut, helpers checked the same way), reassigned afterwards only by the time-filter clamps; TSDBStore advertises an open end.",
 		Assume: []string{"labels.Matcher.Matches and Labels.Has/Get are opaque", "relabel-based TSDB selection and the cuckoo-filter's false-negative freedom are not covered"},
 		Run:    runC05,
 	})
@@ -25,6 +26,7 @@ func runC05(c *Ctx) {
 	c.Rule("label-sets-shape", "ANY label set, ALL matchers, reject only when the name is present", 1)
 	c.Rule("address-matchers-shape", "only __address__ matchers can reject; ANY over matcher sets", 2)
 	c.Rule("ext-label-reject-guard", "reject iff the store has a value for the name and it does not match", 2)
+	c.Rule("advertised-range-covers-all", "TimeRange is the min/max over every block / client, clamped only by the time filter", 3)
 	p := c.Load("pkg/store")
 	if p == nil {
 		return
@@ -33,6 +35,41 @@ func runC05(c *Ctx) {
 	maxD := 2
 	if c.Tier == "thorough" {
 		maxD = 3
+	}
+	// (6) the advertised range is the hull of what the store holds
+	clamps := hullCfg{Clamps: map[string]string{
+		"limitMinTime": "the configured time filter; Series clamps the request with the same function",
+		"limitMaxTime": "the configured time filter; Series clamps the request with the same function",
+	}}
+	for _, tn := range []string{"BucketStore", "ProxyStore"} {
+		construct := rel + ".(*" + tn + ").TimeRange"
+		fn := p.Func(rel, tn, "TimeRange")
+		if fn == nil {
+			c.Incomplete("advertised-range-covers-all", construct, "", "function not found")
+			continue
+		}
+		probs, n := hullCheck(p, fn, clamps, 0)
+		if n == 0 && len(probs) == 0 {
+			probs = append(probs, "no loop over the store's blocks / clients found")
+		}
+		c.Check(len(probs) == 0, "advertised-range-covers-all", construct, p.Pos(fn.Node().Pos()), "advertised-range-not-hull", strings.Join(probs, "; "))
+	}
+	if fn := p.Func(rel, "TSDBStore", "TimeRange"); fn == nil {
+		c.Incomplete("advertised-range-covers-all", rel+".(*TSDBStore).TimeRange", "", "function not found")
+	} else {
+		// a TSDB keeps receiving samples: every return advertises an open end
+		bad := ""
+		inspectNoLit(fn.Body(), func(n ast.Node) bool {
+			if r, ok := n.(*ast.ReturnStmt); ok {
+				if len(r.Results) != 2 {
+					bad = "unrecognised return"
+				} else if v, isC := constInt(fn.Info(), r.Results[1]); !isC || v != 1<<63-1 {
+					bad = "the advertised max time is " + exprString(r.Results[1]) + ", not math.MaxInt64: samples appended after the range was advertised would be pruned"
+				}
+			}
+			return true
+		})
+		c.Check(bad == "", "advertised-range-covers-all", rel+".(*TSDBStore).TimeRange", p.Pos(fn.Node().Pos()), "advertised-range-not-open", bad)
 	}
 	// (1)
 	if fn := p.Func(rel, "", "storeMatches"); fn == nil {
